@@ -37,3 +37,5 @@
 (declare-fun seqmarkb ((Array Int Int) Int Int Int) Bool)
 ; marker requesting the instance of nkept_cong for two axis lists at position i
 (declare-fun nkcong ((Array Int Int) Int Int Int (Array Int Int) Int Int Int Int) Bool)
+; marker requesting memb_ext for two axis lists of equal length n
+(declare-fun membext ((Array Int Int) Int Int Int (Array Int Int) Int Int) Bool)
